@@ -370,6 +370,20 @@ class BuiltinMixin:
             raise EngineError(f"hasattr({v.t.cls}, {n.const.v!r}): no g_has_{n.const.v} flag declared")
         return st.load(v.z, fd[0], fd[1])
 
+    def bi_issubclass(self, args, kwargs, st, node):
+        """issubclass(cls_value, Name) on a class-valued object whose pseudo-class declares the ghost flag `g_issub_<Name>`."""
+        v = args[0]
+        cname = ast.unparse(node.args[1]).split(".")[-1] if isinstance(node, ast.Call) and len(node.args) == 2 else None
+        if isinstance(v.t, TOpt):
+            self.partial(st, z3.Not(sym.opt_is_none(v)), "TypeError", node, label="issubclass() arg 1 must be a class")
+            v = sym.opt_val(v)
+        if cname is None or not isinstance(v.t, TRef):
+            raise EngineError("issubclass is only modelled for a class-valued object with a declared g_issub_<Name> flag")
+        fd = self.field_decl(v.t.cls, f"g_issub_{cname}")
+        if fd is None:
+            raise EngineError(f"issubclass({v.t.cls}, {cname}): no g_issub_{cname} flag declared")
+        return st.load(v.z, fd[0], fd[1])
+
     def bi_callable(self, args, kwargs, st, node):
         raise EngineError("callable is not modelled")
 
